@@ -7,13 +7,12 @@ pub use actor_method::*;
 pub use cont::Cont;
 
 use crate::{error::{self,met_new_found},model::{name,ShowComment}};
-use syn::{parse_quote,Pat,PatType,PatIdent,Path,punctuated::Punctuated,GenericArgument,
+use syn::{parse_quote,Pat,PatType,PatIdent,Path,punctuated::Punctuated,
           GenericParam,Signature,Ident,FnArg,Type,TypePath,ReturnType,Token};
 
 use proc_macro_error::{abort, abort_call_site};
 use proc_macro2::TokenStream;
 use quote::{quote,format_ident};
-use std::collections::HashMap;
 
 
 #[derive(Clone)]
@@ -27,14 +26,14 @@ pub struct ModelPhantomData {
 
 impl ModelPhantomData {
 
-    pub fn from( gen_set: &HashMap<GenericArgument,GenericParam> ) -> Self {
+    pub fn from( gen_set: &Vec<GenericParam> ) -> Self {
 
         let mut slf = Self::default();
         if !gen_set.is_empty(){ 
 
             let params =                 
                 gen_set
-                    .values()
+                    .iter()
                     .map(|p| crate::model::gen_params::as_arg(p))
                     .collect::<Vec<_>>();
     
